@@ -195,6 +195,10 @@ func (ev *evaluator) readElemQ(elemT types.Type, sl, idx *Term) *Term {
 	if hasFreeBound(idx) {
 		return ev.x.atFun(ev.st, arr, slOff(sl), idx)
 	}
+	if !hasFreeBound(sl) {
+		// a ground read: typing facts, and the index becomes a term of interest for the quantified facts about the array
+		return ev.x.readElem(ev.st, elemT, sl, idx)
+	}
 	return Select(arr, Add(slOff(sl), idx))
 }
 
